@@ -4,7 +4,8 @@ CONSTANTS
  MaxItems = 2
  MaxTicket = 12
  MaxStale = 0
+ MaxExh = 0
  AllowRemove = FALSE
  Dev = {}
-INVARIANTS TypeOK NoLostWakeup NoStreamLost ReadyHasSignal FairBoundTight
+INVARIANTS TypeOK NoLostWakeup NoStreamLost ReadyHasSignal FairBoundTight LiveInHeap YieldBound
 CHECK_DEADLOCK FALSE
